@@ -364,11 +364,14 @@ class MultiIndexBackend(DataFrameSchemaBackend):
 
         error_handler = ErrorHandler(lazy=True)
 
-        # construct MultiIndex with coerced data types
-        coerced_multi_index = {}
+        # construct MultiIndex with coerced data types: levels that no
+        # schema component applies to are kept as they are
+        coerced_multi_index = {
+            i: check_obj.get_level_values(i) for i in range(check_obj.nlevels)
+        }
         for i, index in enumerate(schema.indexes):
             if all(x is None for x in schema.names):
-                index_levels = [i]
+                index_levels = [i] if i < check_obj.nlevels else []
             else:
                 index_levels = [
                     i
